@@ -1,7 +1,7 @@
-(* C16, history level: the table invariant holds after any history through the frame flow and the tick, not only through the table API.
+(* C16, history level: the table invariant holds after any history through the frame flow and the tick, not only through the table API; the executable dictionary used as run-time oracle refines the table.
    Statements only: each theorem restates the full type of a lemma proved in coq/proofs and is closed by
    `exact`; Print Assumptions beneath.  Regenerate with bin/genprops.py after a lemma changes. *)
-From LLTD Require Import Automata Sys TableProofs AutomataHistory.
+From LLTD Require Import Automata Sys TableProofs AutomataHistory SpecExec DictRefinement.
 
 Theorem C16_flow_preserves :
   forall (now_s : N) (h : hdr) (ev : Z) (t : stable), Inv t -> Inv (flow_table now_s h ev t).
@@ -23,3 +23,52 @@ Theorem C16_after_any_history :
   Inv (a_tbl (aset_of y' ctx)) /\ (t_count (a_tbl (aset_of y' ctx)) <= SESSION_TABLE_MAX_ENTRIES)%N).
 Proof. exact C16_history_flow. Qed.
 Print Assumptions C16_after_any_history.
+
+Theorem C16_dictionary_refines_any_history :
+  forall ops : list top,
+  Permutation.Permutation (fold_left dstep ops []) (abs (fold_left tstep ops table0)).
+Proof. exact dict_history_refines. Qed.
+Print Assumptions C16_dictionary_refines_any_history.
+
+Theorem C16_dictionary_observations_agree :
+  forall ops : list top,
+  let d := fold_left dstep ops [] in
+  let t := fold_left tstep ops table0 in
+  length d = N.to_nat (t_count t) /\
+  d_all_complete d = t_allc t /\
+  (forall k0 k1 k2 k3 k4 k5 g : N,
+  d_has d k0 k1 k2 k3 k4 k5 g = true <->
+  st_find t {| m0 := k0; m1 := k1; m2 := k2; m3 := k3; m4 := k4; m5 := k5 |} g <> None) /\
+  (forall now k0 k1 k2 k3 k4 k5 g seq : N,
+  snd (d_add d now k0 k1 k2 k3 k4 k5 g seq) = true <->
+  snd (st_add t now {| m0 := k0; m1 := k1; m2 := k2; m3 := k3; m4 := k4; m5 := k5 |} g seq) <> None).
+Proof. exact dict_history_observations. Qed.
+Print Assumptions C16_dictionary_observations_agree.
+
+Theorem C16_dictionary_add :
+  forall (k0 k1 k2 k3 k4 k5 : N) (t : stable) (now g seq : N),
+  Inv t ->
+  Permutation.Permutation (fst (d_add (abs t) now k0 k1 k2 k3 k4 k5 g seq))
+  (abs (fst (st_add t now {| m0 := k0; m1 := k1; m2 := k2; m3 := k3; m4 := k4; m5 := k5 |} g seq))) /\
+  (snd (d_add (abs t) now k0 k1 k2 k3 k4 k5 g seq) = true <->
+  snd (st_add t now {| m0 := k0; m1 := k1; m2 := k2; m3 := k3; m4 := k4; m5 := k5 |} g seq) <> None) /\
+  (snd (d_add (abs t) now k0 k1 k2 k3 k4 k5 g seq) = false <->
+  d_has (abs t) k0 k1 k2 k3 k4 k5 g = false /\ length (abs t) = 16).
+Proof. exact dict_add_refines. Qed.
+Print Assumptions C16_dictionary_add.
+
+Theorem C16_dictionary_tick :
+  forall (t : stable) (now_s : N),
+  Inv t -> Permutation.Permutation (d_tick (abs t) now_s) (abs (tick_table now_s t)).
+Proof. exact dict_tick_refines. Qed.
+Print Assumptions C16_dictionary_tick.
+
+Theorem C16_dictionary_all_complete :
+  forall t : stable, Inv t -> d_all_complete (abs t) = t_allc t.
+Proof. exact dict_all_complete_refines. Qed.
+Print Assumptions C16_dictionary_all_complete.
+
+Theorem C16_dictionary_count :
+  forall t : stable, Inv t -> length (abs t) = N.to_nat (t_count t).
+Proof. exact dict_count. Qed.
+Print Assumptions C16_dictionary_count.
